@@ -28,11 +28,11 @@ Qed.
    (and may be written back) is not older than the mark.  Copies of dependency
    rows are taken when the walk of their parent starts, so below the root this
    holds by itself. *)
-Lemma is_dirty_keeps_failed g : forall fuel runid w c f r mx seen v w' c' evs,
-  is_dirty fuel runid w c f r mx seen = Ret (v, w', c', evs) ->
+Lemma is_dirty_keeps_failed g : forall fuel runid cyc w c f r mx seen v w' c' evs,
+  is_dirty fuel runid cyc w c f r mx seen = Ret (v, w', c', evs) ->
   failed_at w g -> ((g - 1 = f - 1)%nat -> r_failed r <> None) -> failed_at w' g.
 Proof.
-  induction fuel as [|fuel IH]; intros runid w c f r mx seen v w' c' evs H Hg Hr; [discriminate|].
+  induction fuel as [|fuel IH]; intros runid cyc w c f r mx seen v w' c' evs H Hg Hr; [discriminate|].
   cbn [is_dirty] in H.
   destruct (existsb (Nat.eqb f) seen); [inversion H; subst; exact Hg|].
   destruct (r_failed r) eqn:Ef; [inversion H; subst; exact Hg|].
@@ -45,14 +45,16 @@ Proof.
   { inversion H; subst. now apply failed_at_forget_missing. }
   eapply (walk_deps_inv (fun wk => failed_at wk g) (fun d rs => rs = load runid (dbs w) (d_source d)));
     [| | |exact Hg|exact H].
-  - intros w1 c1 d rs v1 w1' c1' e1 -> Hg1 E. eapply IH; [exact E|exact Hg1|].
+  - intros w1 c1 d rs v1 w1' c1' e1 -> Hg1 E. cbv beta in E.
+    destruct (existsb (Nat.eqb (d_source d)) cyc); [inversion E; subst; exact Hg1|].
+    eapply IH; [exact E|exact Hg1|].
     intro Heq. rewrite load_failed. unfold failed_at, get_row in *. now rewrite <- Heq.
   - intros w1 Hg1. now apply failed_at_put_row_other.
   - eapply Forall_impl; [|apply deps_rows_loaded]. cbn. intros x [_ Hx]. exact Hx.
 Qed.
 
-Corollary is_dirty_keeps_failed_fresh g fuel runid w c f mx seen v w' c' evs :
-  is_dirty fuel runid w c f (load runid (dbs w) f) mx seen = Ret (v, w', c', evs) ->
+Corollary is_dirty_keeps_failed_fresh g fuel runid cyc w c f mx seen v w' c' evs :
+  is_dirty fuel runid cyc w c f (load runid (dbs w) f) mx seen = Ret (v, w', c', evs) ->
   failed_at w g -> failed_at w' g.
 Proof.
   intros H Hg. eapply is_dirty_keeps_failed; [exact H|exact Hg|].
@@ -60,8 +62,8 @@ Proof.
 Qed.
 
 (* what a dirtiness check says about a row whose copy carries a failure mark *)
-Lemma is_dirty_on_failed fuel runid w c s r mx seen v w' c' evs :
-  is_dirty fuel runid w c s r mx seen = Ret (v, w', c', evs) -> r_failed r <> None -> v = VDirty \/ v = VCycle.
+Lemma is_dirty_on_failed fuel runid cyc w c s r mx seen v w' c' evs :
+  is_dirty fuel runid cyc w c s r mx seen = Ret (v, w', c', evs) -> r_failed r <> None -> v = VDirty \/ v = VCycle.
 Proof.
   destruct fuel as [|fuel]; [discriminate|]. intros H Hs. cbn [is_dirty] in H.
   destruct (existsb (Nat.eqb s) seen); [inversion H; auto|].
@@ -104,8 +106,8 @@ Qed.
 
 (* C05: a row with a recorded dependency on a failed row is not found clean by
    any run that has not already dealt with it itself *)
-Theorem dependent_of_failed_not_clean fuel runid w c f r mx seen v w' c' evs :
-  is_dirty fuel runid w c f r mx seen = Ret (v, w', c', evs) ->
+Theorem dependent_of_failed_not_clean fuel runid cyc w c f r mx seen v w' c' evs :
+  is_dirty fuel runid cyc w c f r mx seen = Ret (v, w', c', evs) ->
   chk_is_checked c runid r f = false ->
   (exists d, In d (deps_of (dbs w) r f) /\ d_mode d = DModified /\ failed_at w (d_source d)) ->
   v <> VClean.
@@ -120,7 +122,8 @@ Proof.
   destruct (negb (stamp_eqb old (read_stamp w (r_name r)))).
   { inversion H; subst. destruct (r_csum r); discriminate. }
   eapply walk_deps_failed_dep_not_clean; [|exact H|right].
-  - intros w0 c0 s rs v0 w0' c0' evs0 E. eapply is_dirty_on_failed; exact E.
+  - intros w0 c0 s rs v0 w0' c0' evs0 E. cbv beta in E.
+    destruct (existsb (Nat.eqb s) cyc); [inversion E; subst; intros _; now left|]. eapply is_dirty_on_failed; exact E.
   - exists d, (load runid (dbs w) (d_source d)). split; [|split; [exact Hm|]].
     + unfold deps_rows. apply in_map_iff. exists d. split; [reflexivity|exact Hin].
     + rewrite load_failed. exact Hf.
@@ -182,9 +185,9 @@ Qed.
 (* C14: a target with a recorded redo-ifcreate edge to a path that now exists, or
    with a recorded edge to //ALWAYS, is not found clean by a run that has not
    dealt with it yet (its own changed/checked ids are older than the run) *)
-Theorem ifcreate_or_always_not_clean fuel runid w c f r mx seen v w' c' evs chg :
+Theorem ifcreate_or_always_not_clean fuel runid cyc w c f r mx seen v w' c' evs chg :
   (0 < runid)%Z ->
-  is_dirty fuel runid w c f r mx seen = Ret (v, w', c', evs) ->
+  is_dirty fuel runid cyc w c f r mx seen = Ret (v, w', c', evs) ->
   chk_is_checked c runid r f = false ->
   r_changed r = Some chg -> (chg < runid)%Z ->
   (match r_checked r with Some k => k | None => 0 end < runid)%Z ->
@@ -205,8 +208,10 @@ Proof.
   set (sm := Z.max chg match r_checked r with Some k => k | None => 0%Z end) in *.
   assert (Hsm : (sm < runid)%Z) by (unfold sm; lia).
   eapply (walk_deps_bad_edge_not_clean (newer_than_any_old runid)); [| |exact H|right].
-  - intros w0 c0 s rs v0 w0' c0' evs0 E. eapply is_dirty_fs; exact E.
-  - intros w0 c0 s rs v0 w0' c0' evs0 E (cg & Hcg & Hle).
+  - intros w0 c0 s rs v0 w0' c0' evs0 E. cbv beta in E.
+    destruct (existsb (Nat.eqb s) cyc); [inversion E; subst; reflexivity|]. eapply is_dirty_fs; exact E.
+  - intros w0 c0 s rs v0 w0' c0' evs0 E (cg & Hcg & Hle). cbv beta in E.
+    destruct (existsb (Nat.eqb s) cyc); [inversion E; auto|].
     destruct fuel as [|fuel']; [discriminate|]. cbn [is_dirty] in E.
     destruct (existsb (Nat.eqb s) (f :: seen)); [inversion E; auto|].
     destruct (r_failed rs); [inversion E; auto|]. rewrite Hcg in E.
@@ -226,8 +231,8 @@ Qed.
 Definition moved_on (sm : Z) (rs : row) : Prop :=
   r_failed rs <> None \/ r_changed rs = None \/ (exists cg, r_changed rs = Some cg /\ (sm < cg)%Z).
 
-Theorem moved_on_dep_not_clean fuel runid w c f r mx seen v w' c' evs chg :
-  is_dirty fuel runid w c f r mx seen = Ret (v, w', c', evs) ->
+Theorem moved_on_dep_not_clean fuel runid cyc w c f r mx seen v w' c' evs chg :
+  is_dirty fuel runid cyc w c f r mx seen = Ret (v, w', c', evs) ->
   chk_is_checked c runid r f = false ->
   r_changed r = Some chg ->
   (exists d, In d (deps_of (dbs w) r f) /\ d_mode d = DModified /\
@@ -245,8 +250,10 @@ Proof.
   { inversion H; subst. destruct (r_csum r); discriminate. }
   set (sm := Z.max chg match r_checked r with Some k => k | None => 0%Z end) in *.
   eapply (walk_deps_bad_edge_not_clean (moved_on sm)); [| |exact H|right].
-  - intros w0 c0 s rs v0 w0' c0' evs0 E. eapply is_dirty_fs; exact E.
-  - intros w0 c0 s rs v0 w0' c0' evs0 E Hmo.
+  - intros w0 c0 s rs v0 w0' c0' evs0 E. cbv beta in E.
+    destruct (existsb (Nat.eqb s) cyc); [inversion E; subst; reflexivity|]. eapply is_dirty_fs; exact E.
+  - intros w0 c0 s rs v0 w0' c0' evs0 E Hmo. cbv beta in E.
+    destruct (existsb (Nat.eqb s) cyc); [inversion E; auto|].
     destruct fuel as [|fuel']; [discriminate|]. cbn [is_dirty] in E.
     destruct (existsb (Nat.eqb s) (f :: seen)); [inversion E; auto|].
     destruct (r_failed rs) eqn:Ef; [inversion E; auto|].
